@@ -15,7 +15,8 @@
 (* Fixed = FALSE) is a cycle TLC finds as a liveness counterexample.       *)
 (***************************************************************************)
 EXTENDS Integers, Sequences, FiniteSets, TLC
-CONSTANTS MaxJunk, Fixed   \* Fixed: apply the F1 repair
+CONSTANTS MaxJunk, Fixed,   \* Fixed: apply the F1 repair
+          PrefixJSONAccepted  \* FALSE = the code (json.Unmarshal rejects trailing bytes); TRUE = a decoder that stops after the first JSON value (seeded C03-f)
 
 RootsEndLen == 4   \* O L ME ME
 RootsLen == 8      \* MB MB V L  +  O L ME ME
@@ -34,7 +35,12 @@ Expected(f, size) ==
   IF S = {} THEN 0 ELSE CHOOSE e \in S : \A e2 \in S : e2 <= e
 
 JunkSyms == {MB, ME, V, J, X, L(9), O(0), O(1), O(10), O(11)}
-Base == { <<>>, <<X>> \o Root(1), <<X>> \o Root(1) \o <<X, ME, ME>> \o Root(13) }
+\* the last base file ends in a candidate assembled from fragments (as item
+\* values written by an interrupted Flush can): header and trailer agree on
+\* offset 10 and length 10, a JSON value starts behind the header, but another
+\* byte follows it - not a root record
+Base == { <<>>, <<X>> \o Root(1), <<X>> \o Root(1) \o <<X, ME, ME>> \o Root(13),
+          <<X>> \o Root(1) \o <<MB, MB, V, L(10), J, X, O(10), L(10), ME, ME>> }
 
 VARIABLES file, size, pc, dte, res
 vars == <<file, size, pc, dte, res>>
@@ -78,7 +84,8 @@ ReadEndAndCheck ==
                /\ At(file, off) = MB /\ At(file, off + 1) = MB
                /\ At(file, off + 2) = V
                /\ At(file, off + 3) = L(len)
-               /\ Sub(file, off + 4, size - 4) = <<J>>
+               /\ IF PrefixJSONAccepted THEN size - 4 > off + 4 /\ At(file, off + 4) = J
+                                        ELSE Sub(file, off + 4, size - 4) = <<J>>
      IN IF ok THEN pc' = "done" /\ res' = "found" /\ size' = size
               ELSE pc' = "scan" /\ size' = size - 1 /\ res' = res
   /\ UNCHANGED <<file, dte>>
